@@ -675,6 +675,7 @@ def set_method(ex, s, name, args, kwargs):
 # -------------------------------------------------------------------- str
 def str_method(ex, s, name, args, kwargs):
     if name == 'format':
+        N.format_check(ex, s, args, kwargs)
         return OPAQUE if not _all_conc([s] + args + list(kwargs.values())) else _try_format(s, args, kwargs)
     if isinstance(s, SStr):
         if name == 'encode':
